@@ -264,10 +264,38 @@ func init() {
 			}
 			genDearmorAdversarial(h, n)
 			genSmallAlphabet(h, ml)
+			genFrameEdgeJunk(h)
 			// genuine messages of all four modes: every armored entry point accepts the genuine text and
 			// refuses each frame variant
 			genArmoredFrames(h, map[string]bool{"enc": true, "sc": true, "att": true, "det": true}, 2)
 			h.res.ExhNote = "every string over {'.',' ','0','z','!','>'} up to length " + strconv.Itoa(ml) + " through Armor62Open (and CheckArmor62 up to length-2)"
 		},
+	}
+}
+
+// bytes that other notions of "white space" would skip (VT, FF, NUL, NEL, NBSP, U+2028, U+3000, a lone 0xa0, DEL)
+// placed at every edge of the two frame sentences and inside them: only space, tab, CR, LF and '>' are filler;
+// whatever the implementation accepts must be what the model accepts (the model refuses all of these)
+func genFrameEdgeJunk(h *H) {
+	junk := [][]byte{{0x0b}, {0x0c}, {0x00}, {0x1f}, {0x7f}, {0x85}, {0xa0}, {0xc2, 0x85}, {0xc2, 0xa0}, {0xe2, 0x80, 0xa8}, {0xe3, 0x80, 0x80}, {0xef, 0xbb, 0xbf}}
+	for _, typ := range []string{"0", "1", "2"} {
+		for _, brand := range []string{"", "KB"} {
+			good, _ := saltpack.Armor62Seal(h.rng.Bytes(40), typOf[typ], brand)
+			d1 := strings.Index(good, ".")
+			d2 := d1 + 1 + strings.Index(good[d1+1:], ".")
+			d3 := strings.LastIndex(good, ".")
+			for _, j := range junk {
+				for pos, at := range []int{0, 5, d1, d1 + 1, d2 + 1, d2 + 2, d3, len(good)} {
+					if pos == 3 {
+						continue // inside the payload: covered by the foreign-character cases
+					}
+					txt := good[:at] + string(j) + good[at:]
+					h.tag("frame-edge-junk")
+					for _, chk := range []string{typ, "none"} {
+						h.Run(Case{Op: "dearmor", A: map[string]string{"chk": chk, "input": hx([]byte(txt))}})
+					}
+				}
+			}
+		}
 	}
 }
